@@ -260,6 +260,9 @@ func injectWireOnlyInstrs(rt *rapid.T, g *gen.G, n *spec.Node) {
 // (copy_ttl_out/in, set_mpls_ttl, dec_mpls_ttl, set_nw_ttl, push_pbb, pop_pbb):
 // a switch reports them in flow-stats replies like any other action.
 func injectWireOnlyActions(rt *rapid.T, g *gen.G, n *spec.Node) {
+	if g.Avoid["wire_only_actions"] {
+		return
+	}
 	if (n.Kind != "instr.apply_actions" && n.Kind != "instr.write_actions") || gen.Pick(rt, "wire_actions?", 4) != 0 {
 		return
 	}
